@@ -298,13 +298,13 @@ REAL_W3 = ("REAL: the dirk binary built from the working tree (-tags verif), run
            "between them a real handler-to-badger stack opened in the worker process on the same directory for signing and probing. No bubble, no scheduler: steps are sequential processes. "
            "Faults: self-kill of the import at a drawn storage point (VERIF_HOOK_KILL_AT); the N-th storage operation of the importing process fails (VERIF_HOOK_FAIL_AT).")
 q, t = tiers(60, 120, 2500, 1500)
-q["layers"] = [dict(runs=60, budget_s=120, params="")] * 8 + native([dict(runs=60, budget_s=120, params="")] * 8)
-t["layers"] = [dict(runs=2500, budget_s=1500, params="")] * 8 + native([dict(runs=2500, budget_s=1500, params="")] * 8)
-q["require_probes"] = t["require_probes"] = ["imports_succeeded", "imports_rejected", "imports_with_wrong_metadata", "fault_import_killed_at_storage_point", "fault_import_storage_operation_failed", "probes"]
+q["layers"] = [dict(runs=60, budget_s=120, params="")] * 8 + native([dict(runs=60, budget_s=120, params="")] * 8) + native([dict(runs=3, budget_s=120, params="mode=bulk")])
+t["layers"] = [dict(runs=2500, budget_s=1500, params="")] * 8 + native([dict(runs=2500, budget_s=1500, params="")] * 8) + native([dict(runs=60, budget_s=1500, params="mode=bulk")])
+q["require_probes"] = t["require_probes"] = ["bulk_imports", "imports_succeeded", "imports_rejected", "imports_with_wrong_metadata", "fault_import_killed_at_storage_point", "fault_import_storage_operation_failed", "probes"]
 plan("C10", "exploration",
      "one case = one seeded history: 1-4 keys with drawn prior signing history (through the real signer), then 1-3 imports of generated interchange files (1-5 data entries, repeated keys, 0-2 blocks "
      "and attestations per entry with values around the protected ones - newer in one field, older in another -, unprefixed / upper-case / non-hex keys, malformed numbers, wrong version, wrong "
-     "or differently written genesis root), a fifth of them first killed at a drawn storage point and then re-run, a fifth with the N-th storage operation of the importing process (or all from the N-th on) failing; each step is a real process. distinct = distinct (file, prior database); "
+     "or differently written genesis root), a fifth of them first killed at a drawn storage point and then re-run, a fifth with the N-th storage operation of the importing process (or all from the N-th on) failing; each step is a real process; one worker imports files with records for 80 000-100 000 validators (128 000-160 000 records) into an empty database. distinct = distinct (file, prior database); "
      "non-trivial = all. Oracle: no exported field ever decreases across any step; wrong metadata => non-zero exit and unchanged export; after exit 0 the export covers, field by field, the "
      "key's own history and every value of every successfully imported file; a restarted instance refuses proposals at, and attestations at or below, those values.",
      q, t, real_vs_stub=REAL_W3, needs_dirk=True)
